@@ -447,6 +447,15 @@ def run(rep):
     tier = getattr(rep, 'tier_run', rep.tier)
     rng = rep.rng
     _single_thread()
+    rep.assumptions += [
+        'numba kernels run with one thread during this check (results do not depend on the '
+        'thread count; scheduling independence is C18)',
+        'surface forms are mapped to the model\'s index classes by the dtype kind pandas/numpy '
+        'infer (pd.array of a list of bools -> boolean, of ints -> Int64, of floats/strings -> '
+        'other; an all-None list is generated only in the typed forms)',
+        'GeoSeries/GeoDataFrame iloc / loc / reindex / boolean selection / pd.concat / pickle / '
+        'parquet are expected to have the element semantics of the model step they are mapped to '
+        '(slice, take without fill, take with fill and -1, mask, concat, copy)']
     rep.rule = ('(a) enumerated small scopes: every slice start/stop/step over a 10x10x7 grid applied '
                 'to a slice of a 4-element array and once more; on a length-3 window (offset 2) of a '
                 '6-element array of each of the 7 kinds every take of <= 2 indices in [-4, 3] with and '
@@ -459,7 +468,7 @@ def run(rep):
                 'boolean masks (numpy, list, BooleanArray with NA, Series/DataFrame row selection), '
                 'integer arrays (list, numpy int64/int32/uint8, Int64 with NA, tuple, iloc, loc), '
                 'concat (rotate, self+self, pieces, pd.concat), copy / pickle / Series / DataFrame / '
-                'iteration round trips, arr[i], ~12% invalid requests.  A history is non-trivial when '
+                'parquet / iteration round trips, arr[i], ~12% invalid requests.  A history is non-trivial when '
                 'at least one step returned a non-empty array; distinct = distinct (kind, subtype, '
                 'elements, steps)')
     nrand = 1300 if tier == 'quick' else 20000
@@ -534,7 +543,8 @@ def run(rep):
     rep.extra['seconds_kernel'] = round(time.time() - t_coq, 1)
     reported = {}
     for meta, (sig, what, k) in pyfails:
-        s = f'{sig}:{meta["kind"]}' if meta['kind'] not in sig else sig
+        s = sig if (meta['kind'] in sig or sig == 'index-argument-mutated') \
+            else f'{sig}:{meta["kind"]}'
         reported.setdefault(s, (meta, what))
     for i in bad[:40]:
         codes = coq_codes([cases[i]])[0]
